@@ -1,19 +1,8 @@
 \* D6 as implemented: must violate NothingLeft
 SPECIFICATION SettledSpec
 CONSTANTS
-  NC = 2
-  SASet = {FALSE}
-  OAuthSet = {FALSE}
-  DelSet = {"ok"}
-  PostSet = {"json", "sse", "404"}
-  GetSet = {"405"}
-  InitH = {"A"}
-  HSet = {""}
-  MaxNotify = 0
-  MaxSaEv = 0
-  MaxAuth = 0
-  MaxClose = 1
-  AllowCancel = FALSE
+  NC = 3
+  Profiles <- ProfLeadStream
   FixCancel = FALSE
   FixStream = FALSE
 INVARIANTS NothingLeft
